@@ -15,6 +15,11 @@ IntList = list
 Bytes = bytes
 
 
+def uninterpreted(f):
+    """marks a function the solver treats as an uninterpreted symbol (only its __facts are known)"""
+    return f
+
+
 def lemma(f):
     """marks a lemma procedure: requires/ensures/decreases + a proof body, verified by the engine"""
     return f
@@ -245,3 +250,23 @@ def be_val_nonneg(s: IntList):
     decreases(len(s))
     if len(s) > 0:
         be_val_nonneg(s[:len(s) - 1])
+
+
+@uninterpreted
+def band(x, y) -> Int:
+    """x & y for two symbolic operands (no bit-level reasoning; only the facts below)"""
+    return x & y
+
+
+def band__facts(x, y, r):
+    return implies(x >= 0 and y >= 0, 0 <= r and r <= x and r <= y)
+
+
+@uninterpreted
+def bor(x, y) -> Int:
+    """x | y for two symbolic operands"""
+    return x | y
+
+
+def bor__facts(x, y, r):
+    return implies(x >= 0 and y >= 0, r >= x and r >= y and r <= x + y)
